@@ -161,7 +161,7 @@ pub fn run_kr(m: &Material, scn: &Value) -> Value {
                 let by_name = kr.get_key(name);
                 lookups_ok = lookups_ok && by_name.map(|k| k.public_key.as_str() == pk).unwrap_or(false);
                 let epk: Result<EncodedPk, _> = EncodedPk::try_from(pk.as_str());
-                lookups_ok = lookups_ok && epk.map(|e| kr.get_name_from_key(&e).as_deref() == Some(name.as_str())).unwrap_or(false);
+                lookups_ok = lookups_ok && epk.map(|e| kr.get_name_from_key(&e).as_ref().map(|n| n.as_str()) == Some(name.as_str())).unwrap_or(false);
             }
             // at most one answer: no two entries share a key
             for i in 0..ents.len() {
@@ -207,9 +207,9 @@ pub fn run_krbig(t: &Templates, seed: u64, scn: &Value) -> Value {
             ev["nentries"] = json!(entries_by_lookup(&kr, &names).len());
             let mut ok = true;
             for i in 0..n {
-                ok = ok && kr.get_key(&names[i]).map(|x| x.public_key.as_str() == pubs[i] && x.name == names[i]).unwrap_or(false);
+                ok = ok && kr.get_key(&names[i]).map(|x| x.public_key.as_str() == pubs[i] && x.name.as_str() == names[i].as_str()).unwrap_or(false);
                 let e: Result<EncodedPk, _> = EncodedPk::try_from(pubs[i].as_str());
-                ok = ok && e.map(|e| kr.get_name_from_key(&e).as_deref() == Some(names[i].as_str())).unwrap_or(false);
+                ok = ok && e.map(|e| kr.get_name_from_key(&e).as_ref().map(|n| n.as_str()) == Some(names[i].as_str())).unwrap_or(false);
             }
             ev["lookups_ok"] = json!(ok);
             let mut miss = kr.get_key("no such entry").is_none();
